@@ -214,12 +214,12 @@ theorem inputsIndOf_single_get (name : Name) (ns : List Nat) (fs : List Fld) (hl
   | none =>
     simp only [hne, Bool.false_eq_true, if_false]
     have := route_core name ns fs hlen hnd [] [] (by simp) j (by simpa [prodL, ownLen] using hj) m hm
-    simpa [prodL, ownLen] using this
+    simpa [prodL, ownLen, ownBlock, ownKeyList] using this
   | some p =>
     obtain ⟨e, k⟩ := p
     simp only [hne, Bool.false_eq_true, if_false]
     have := route_core name ns fs hlen hnd [e] k (hown e k rfl) j (by simpa [prodL, ownLen] using hj) m hm
-    simpa [prodL, ownLen] using this
+    simpa [prodL, ownLen, ownBlock, ownKeyList] using this
 
 /-! ### the spec's coordinate lookup -/
 
